@@ -80,6 +80,16 @@ static void op_life(const V &a, V &r) {
     bootsNOT(&c[4], &c[0], ck); if (bootsSymDecrypt(&c[4], sk) != 0) wrong++;
     bootsCOPY(&c[5], &c[1], ck); if (bootsSymDecrypt(&c[5], sk) != 0) wrong++;
     bootsCONSTANT(one, 1, ck); if (bootsSymDecrypt(one, sk) != 1) wrong++;
+    // special values of the rounded input: body that rounds to barb = 0, mask coefficients that round to 0 (skipped CMux steps),
+    // barb = N exactly (the output only needs to be computed from initialised memory; its bit is not specified at the boundary)
+    { const int n = P->in_out_params->n;
+      for (int q = 0; q < 2; q++) { for (int i = 0; i < n; i++) c[q].a[i] = (i % 3 == 0) ? 0 : (int32_t) (i * 2654435761u); c[q].b = 0; c[q].current_variance = 0; }
+      c[0].b = 1 << 29;                       // NAND: 1/8 - 1/8 - 0 = 0 -> barb = 0
+      bootsNAND(&c[2], &c[0], &c[1], ck); volatile int sink = bootsSymDecrypt(&c[2], sk); (void) sink;
+      c[0].b = (int32_t) 0xA0000000u;          // 1/8 - (-3/8) = 1/2 -> barb = N
+      bootsNAND(&c[2], &c[0], &c[1], ck); sink = bootsSymDecrypt(&c[2], sk);
+      for (int i = 0; i < n; i++) { c[0].a[i] = 0; c[1].a[i] = 0; } c[0].b = 1 << 29; c[1].b = 0;
+      bootsAND(&c[2], &c[0], &c[1], ck); sink = bootsSymDecrypt(&c[2], sk); }
     // serialisation round trips on both transports
     std::string pb, cb, sb, tb;
     if (tr == 1) { std::ostringstream o1, o2, o3, o4; export_tfheGateBootstrappingParameterSet_toStream(o1, P); export_tfheGateBootstrappingCloudKeySet_toStream(o2, ck);
